@@ -286,6 +286,16 @@ def classify_raise(e):
   return 'Other:' + type(e).__name__
 
 
+def dedup(viol, per_key=2):
+  seen = collections.Counter()
+  out = []
+  for v in viol:
+    seen[v['key']] += 1
+    if seen[v['key']] <= per_key:
+      out.append(v)
+  return out
+
+
 def main():
   out_path = sys.argv[1]
   tier = os.environ.get('VERIF_TIER', 'quick')
@@ -311,6 +321,10 @@ def main():
     except Exception as e:  # pylint: disable=broad-except
       raises[classify_raise(e)] += 1
       dist['plan_raises'] += 1
+      if isinstance(desc, str):
+        viol.append({'key': 'C08:' + classify_raise(e), 'what':
+                     f'shipped recipe {desc} rejected: {type(e).__name__}: {str(e)[:160]}',
+                     'input': {'recipe': desc, 'model_hex': mb.hex() if len(mb) < 20000 else None}})
       continue
     # instruction generator (real)
     gen = tig.TransformationInstructionsGenerator()
@@ -329,6 +343,10 @@ def main():
     except Exception as e:  # pylint: disable=broad-except
       m_out = e
       out_bytes = None
+      if isinstance(desc, str):
+        viol.append({'key': 'C08:' + classify_raise(e), 'what':
+                     f'shipped recipe {desc} rejected: {type(e).__name__}: {str(e)[:160]}',
+                     'input': {'recipe': desc, 'model_hex': mb.hex() if len(mb) < 20000 else None}})
     lit = f'({c_model(ctx, m_in)},\n {vlib.coq_list([c_ttp(ctx, p) for p in params.values()])})'
     cases.append((lit, ctx, ji, m_in, m_out, desc, mb))
     if ji[0] == 0 and any(i[0] != 0 for t in ji[1] for i in t[3]):
@@ -341,7 +359,13 @@ def main():
         dist['interpreter_runs'] += 1
         r = og.run_interpreter(out_bytes)
         if r[0] != 'ok':
-          bad.append(('C01:interp-' + r[0], str(r[1])[:200]))
+          msg = str(r[1])
+          if 'add.cc' in msg and 'input1_shift == 0' in msg:
+            bad.append(('C01:interp:int16-add-pot-scale', msg[:200]))
+          elif 'sub.cc' in msg and 'input1_shift == 0' in msg:
+            bad.append(('C01:interp:int16-sub-pot-scale', msg[:200]))
+          else:
+            bad.append(('C01:interp-' + r[0], msg[:200]))
       for key, msg in bad[:2]:
         viol.append({'key': key, 'what': msg, 'input': {
             'model_seed_case': dist['cases'], 'recipe': desc,
@@ -390,7 +414,7 @@ def main():
       'interface': 'I+T+E', 'evaluations': len(cases),
       'distinct_nontrivial': len(nontrivial),
       'n_mismatches': len(mism), 'mismatches': mism[:10],
-      'oracle_violations': viol[:20], 'distribution': dict(dist),
+      'oracle_violations': dedup(viol), 'distribution': dict(dist),
       'raise_kinds': dict(raises), 'samples': samples,
       'wall_s': time.time() - t0,
   }
